@@ -37,7 +37,7 @@ def retype(p, rng, variety):
     for i in range(n):
         k = len(q["fi"][i])
         if k == 0:
-            q["ty"][i] = rng.choice(["input", "input", "input", "0", "1", "bb_output"]) if variety else "input"
+            q["ty"][i] = rng.choice(["input", "input", "input", "0", "1", "x", "bb_output"]) if variety else "input"
         elif k == 1:
             q["ty"][i] = rng.choice(["buf", "not", "and", "xor", "bb_input" if fo[i] == 0 else "buf"]) if variety else "buf"
         else:
